@@ -17,7 +17,7 @@ LEVEL_TEXT = ("Theorems in Coq over every schedule of NewTerm, Truncate, Replica
               "schedules on the real ShardsDirector/FollowerController/LeaderController and comparing every RPC result, head, ack, write "
               "result, GetStatus and the final WAL with the extracted model; the fence predicates are also evaluated directly on the "
               "implementation (WAL appends, acks, write completions after a NewTerm answer).")
-LEVEL_NOTE = ("Snapshot install is one critical section in the code (handleSnapshot holds the apply mutex and the controller lock from the first Recv to the end), so it is one model step with an outcome parameter (complete / stream fails before the first chunk / fails later / later chunk of another term); handlers parked at their WAL calls, at the snapshot stream Recv and the apply loop parked in the DB are exercised by the harness (RACE schedules, spec-only scenarios) and judged by the fence monitors. Trusted: Coq kernel, extraction (ExtrOcamlBasic), the Go harness (gating WAL wrapper, stream mock) and its canonicalisation. "
+LEVEL_NOTE = ("Kill images (the node abandoned without closing anything and restarted on a copy of its directories taken right after an answer; for the WAL also the content at the start of the last completed flush) are judged by specification verdicts only (restart:term-regressed-after-kill, restart:acked-entry-missing-after-kill, restart:log-differs-from-synced-prefix and the fence monitors across the kill): the model's crash step keeps the stored term and a cut of the log covering the synced prefix, which is what they enforce. Snapshot install is one critical section in the code (handleSnapshot holds the apply mutex and the controller lock from the first Recv to the end), so it is one model step with an outcome parameter (complete / stream fails before the first chunk / fails later / later chunk of another term); handlers parked at their WAL calls, at the snapshot stream Recv and the apply loop parked in the DB are exercised by the harness (RACE schedules, spec-only scenarios) and judged by the fence monitors. Trusted: Coq kernel, extraction (ExtrOcamlBasic), the Go harness (gating WAL wrapper, stream mock) and its canonicalisation. "
               "Modelled, not verified: the WAL as a list with a synced prefix (C09/C10), the DB as the holder of term and commit offset, "
               "gRPC stream life cycle (a stream's goroutines end at an explicit StreamBreak action), the Go scheduler inside one critical section. "
               "Not modelled: the follower's apply loop (C06/C07; schedules advertise commit offset -1), leader with followers (cursors, quorum: C08), "
